@@ -90,8 +90,8 @@ func ruleHNSWLinkEntry(r *Run, p string) {
 	// ENTRY: after the insertion, entryPoint = id ⇔ the node got no layer-0 edges
 	var entryStore *ssa.Store
 	allInstrs(add, func(in ssa.Instruction) {
-		if st, ok := in.(*ssa.Store); ok && c.S(st.Addr) == "P0.entryPoint" && domInstr(insCall, st) {
-			entryStore = st
+		if st, ok := in.(*ssa.Store); ok && c.S(st.Addr) == "P0.entryPoint" && (domInstr(insCall, st) || (!domInstr(st, insCall) && blockReaches(insCall.Block(), st.Block()))) {
+			entryStore = st // (the insertion itself may be skipped for the very first node)
 		}
 	})
 	if entryStore == nil {
@@ -122,7 +122,7 @@ func ruleHNSWLinkEntry(r *Run, p string) {
 			if a["NOEDGE"] {
 				return "entry"
 			}
-			return "keep"
+			return "keep|entry" // handing over to a linked node is harmless; not handing over to an isolated one hides it
 		})
 		okVal := false
 		for _, mu := range mapUpdatesOf(add) {
@@ -154,6 +154,13 @@ func ruleHNSWLinkEntry(r *Run, p string) {
 				}
 				return false, false
 			})
+			if !ok {
+				// the id was picked earlier and carried in a variable (a single pass that remembers the best live node):
+				// every value the variable can take was assigned on the live side of the soft-delete test of that value
+				if ph, isPhi := st.Val.(*ssa.Phi); isPhi {
+					ok = liveGuardedPhi(cb, ph, "P0."+k.DelField, 0, map[*ssa.Phi]bool{})
+				}
+			}
 			r.Check(ok, p+".ENTRY", fmt.Sprintf("hnsw:flush:reelect#%d", n), w.InstrPos(st)+" "+w.Name(body), "re-elected entry point is tested not soft-deleted", "flush may elect a soft-deleted node ("+val+") as entry point")
 		})
 		if n == 0 {
@@ -179,12 +186,17 @@ func ruleHNSWReelectLevel(r *Run, rule string, body *ssa.Function) {
 	}
 	var bests []*ssa.Phi
 	n := 0
+	carriedForm := false
 	allInstrs(body, func(in ssa.Instruction) {
 		st, ok := in.(*ssa.Store)
 		if !ok || c.S(st.Addr) != "P0.entryPoint" || isZeroConst(st.Val) {
 			return
 		}
 		n++
+		if _, carried := st.Val.(*ssa.Phi); carried {
+			carriedForm = true
+			return
+		}
 		lv := levelOf(st.Val)
 		site := w.InstrPos(st) + " " + name
 		sameLevel, argmax := false, false
@@ -233,6 +245,12 @@ func ruleHNSWReelectLevel(r *Run, rule string, body *ssa.Function) {
 			"the re-elected entry point is a node of the current top level, or the level-wise best one with its level recorded",
 			"the entry point is moved to "+c.S(st.Val)+" without tying maxLevel to that node's level (neither `Level == maxLevel` nor an argmax that records the level)")
 	})
+	if carriedForm {
+		// the election remembers its choice in variables and stores it after the scan: the coupling of the remembered id and
+		// the remembered level is a relational fact over two joins that these rules do not decide
+		r.Note(rule, "hnsw:flush:reelect-level", w.Pos(body.Pos())+" "+name, "the entry point is chosen in a pass that carries its choice in variables; that the carried id and the carried level describe the same node is not decided here")
+		return
+	}
 	// running maxima found from the other end: a phi fed by some node's Level that reaches a store into maxLevel
 	allInstrs(body, func(in ssa.Instruction) {
 		st, ok := in.(*ssa.Store)
@@ -1108,7 +1126,7 @@ func rulePQ(r *Run, p string) {
 				if v, ok2 := constantIntOf(cmp.L); ok2 {
 					for _, ref := range *bo.Referrers() {
 						if iff, ok := ref.(*ssa.If); ok {
-							if ret, ok := iff.Block().Succs[0].Instrs[len(iff.Block().Succs[0].Instrs)-1].(*ssa.Return); ok && classifyErr(ret) == ErrNonNil {
+							if allPathsFail(iff.Block().Succs[0]) {
 								maxBits = v
 							}
 						}
@@ -1755,6 +1773,80 @@ func isTableRow(v ssa.Value) bool {
 				}
 			}
 		}
+	}
+	return false
+}
+
+// liveGuardedPhi: every operand of ph that is not a zero constant (the "nothing found yet" value) or ph itself comes from a
+// block on the not-deleted side of a test Contains(del, operand).
+func liveGuardedPhi(c *Canon, ph *ssa.Phi, del string, depth int, seen map[*ssa.Phi]bool) bool {
+	if seen[ph] {
+		return true
+	}
+	seen[ph] = true
+	if depth > 4 {
+		return false
+	}
+	some := false
+	for i, e := range ph.Edges {
+		if e == ssa.Value(ph) || isZeroConst(e) {
+			continue
+		}
+		if inner, isPhi := e.(*ssa.Phi); isPhi {
+			if !liveGuardedPhi(c, inner, del, depth+1, seen) {
+				return false
+			}
+			some = true
+			continue
+		}
+		val := c.S(e)
+		pred := ph.Block().Preds[i]
+		guarded := false
+		for b := pred; b != nil && !guarded; b = b.Idom() {
+			d := b.Idom()
+			if d == nil {
+				break
+			}
+			iff, isIf := d.Instrs[len(d.Instrs)-1].(*ssa.If)
+			if !isIf {
+				continue
+			}
+			cond, neg := stripNot(iff.Cond)
+			call, isCall := cond.(*ssa.Call)
+			if !isCall || calleeName(call.Common()) != roaringBitmap+"Contains" || c.S(call.Call.Args[0]) != del || c.S(call.Call.Args[1]) != val {
+				continue
+			}
+			live := d.Succs[1]
+			if neg {
+				live = d.Succs[0]
+			}
+			if (live == b || live.Dominates(b)) && len(live.Preds) == 1 {
+				guarded = true
+			}
+		}
+		if !guarded {
+			return false
+		}
+		some = true
+	}
+	return some
+}
+
+// blockReaches: to is reachable from from in the control-flow graph.
+func blockReaches(from, to *ssa.BasicBlock) bool {
+	seen := map[*ssa.BasicBlock]bool{}
+	stack := []*ssa.BasicBlock{from}
+	for len(stack) > 0 {
+		b := stack[len(stack)-1]
+		stack = stack[:len(stack)-1]
+		if b == to {
+			return true
+		}
+		if seen[b] {
+			continue
+		}
+		seen[b] = true
+		stack = append(stack, b.Succs...)
 	}
 	return false
 }
